@@ -416,10 +416,21 @@ func runC05(c *engine.Ctx) {
 			n++
 			call := dc.(*ssa.Call)
 			c.AllPaths(fmt.Sprintf("%s>dispatcher#%d", side.sym, n), engine.PathCheck{Fn: f, Sink: engine.Is(dc), Track: []ssa.Value{call.Call.Args[0]}, Pred: func(st *engine.PathState) string {
-				enc, k := st.Truth(isFlag(side.flag))
-				if !k {
-					enc, k = st.Truth(isParam(side.flag))
-				}
+				// the session's "connection is encrypted" flag: a bool parameter or a bool field of the session context
+				// (either constructor may take it either way)
+				enc, k := st.Truth(func(v ssa.Value) bool {
+					v = engine.Unwrap(v)
+					if b, ok := v.Type().Underlying().(*types.Basic); !ok || b.Kind() != types.Bool {
+						return false
+					}
+					if fv, _ := engine.LoadedField(v); fv != nil {
+						return strings.Contains(strings.ToLower(fv.Name()), "encrypted")
+					}
+					if pr, ok := v.(*ssa.Parameter); ok {
+						return strings.Contains(strings.ToLower(pr.Name()), "encrypted")
+					}
+					return false
+				})
 				if !k {
 					return "the dispatcher is created without consulting the encrypted flag"
 				}
@@ -452,10 +463,12 @@ func runC05(c *engine.Ctx) {
 		nc := funcObj(c, "server", "NewControl")
 		for _, call := range engine.CallsTo(f, nc) {
 			n++
-			arg := engine.CallArgs(call)[6]
 			okFlag := false
-			if u, ok := arg.(*ssa.UnOp); ok && u.Op == token.NOT && isParam("internal")(u.X) {
-				okFlag = true
+			flags := argsOfType(call, func(t types.Type) bool { b, ok := t.Underlying().(*types.Basic); return ok && b.Kind() == types.Bool })
+			for _, arg := range flags {
+				if u, ok := arg.(*ssa.UnOp); ok && u.Op == token.NOT && isParam("internal")(u.X) && len(flags) == 1 {
+					okFlag = true
+				}
 			}
 			c.Check(okFlag, "server.Service.RegisterControl>encrypted-flag", call.Pos(), 1, nil, "server control channels are encrypted unless the connection is the in-process one (!internal)")
 		}
@@ -519,6 +532,11 @@ func runC05(c *engine.Ctx) {
 			n++
 			src := engine.Provenance(st.Val, engine.ProvOpts{NoArgs: true})
 			okv := src.HasCall(getAuthKey) || (genTok != nil && src.HasCall(genTok))
+			if !okv {
+				// the digest may be produced by a helper (a key type's method): what the helper returns decides
+				src = engine.DeepSources(p, st.Val)
+				okv = src.HasCall(getAuthKey) || (genTok != nil && src.HasCall(genTok))
+			}
 			// copying a whole message (struct value) keeps what it already held
 			c.Check(okv, fmt.Sprintf("%s>%s#%d", p.FuncName(f), lf.Name(), n), in.Pos(), len(src.Values), []string{src.Summary()}, "%s carries a keyed digest (or the OIDC token), never the secret itself", lf.Name())
 		})
